@@ -2,6 +2,7 @@ import Tickit.Proof.RBFlushTextRun
 import Tickit.Proof.RBFlushReach
 import Tickit.Proof.RBFlushX
 import Tickit.Proof.RBFlushSuspend
+import Tickit.Proof.RBFlushSim
 /-
   C04 — flushing a render buffer reproduces its content on the terminal exactly once.
 
@@ -617,6 +618,97 @@ def C04_xterm_screen : Prop :=
     ∀ l c, 0 ≤ l → l < s.lines → 0 ≤ c → c < s.cols →
       xcellOK caps (want rb l c) (s.cells l c)
         ((s.interp (xflush caps n cache (flushToTerm rb).reqs).stream).cells l c) = true
+
+/-! ### The chain below `C04_xterm_screen`: SGR reading, one request on the VT = the grid terminal's step, whole flush -/
+
+open Tickit.RBFlushX in
+/-- **sgr_on_vt**: the VT screen's tokenizer reads `ESC [ params m` as the xterm driver's `chpen` renders it (either
+    separator) as one SGR control sequence with exactly the parameter groups C10's parser sees; only the rendition
+    changes, by C10's SGR interpreter applied to those groups. -/
+theorem sgr_on_vt (colon : Bool) (ps : List TermPen.Param) (s : XScreen) (hg : s.ps = .ground) :
+    s.interp (toBytes (TermPen.renderSgr colon ps)) =
+      { s with attrs := Sgr.sgrApply (Tickit.Proof.Sgr.groupsFlat colon ps [] []) s.attrs } :=
+  XScreen.interp_renderSgr colon ps s hg
+
+open Tickit.RBFlushX in
+/-- **setpen_on_vt**: a setpen request of the flush reaches the VT as the delta of `tickit_term_setpen` against
+    `tt->pen`, rendered by the driver's `chpen`; a VT screen whose rendition is in step with `tt->pen` reads it as
+    "rendition := what `tt->pen` asks for afterwards" and nothing else - every cached pen and requested pen the driver
+    can say in SGR, both separators, with and without RGB (C10's `step_inv` carried over to the VT screen). -/
+theorem setpen_on_vt (caps : TermPen.Caps) (cache p : Pen) (s : XScreen) (hg : s.ps = .ground)
+    (ha : s.attrs = expectAttrs caps cache) (hc : PenEncodable caps cache) (hp : PenEncodable caps p) :
+    s.interp (reqCalls caps cache (.setpen p)).flatten = { s with attrs := expectAttrs caps (termSetpen cache p) } ∧
+    PenEncodable caps (termSetpen cache p) ∧ PenTotal (termSetpen cache p) :=
+  ⟨interp_setpen caps cache p s hg ha hc hp, penEncodable_termSetpen caps cache p hc hp, penTotal_termSetpen cache p⟩
+
+/-- Non-vacuity: bold red requested of a terminal whose `tt->pen` is still empty: every attribute is sent, and the VT
+    screen renders bold red afterwards. -/
+example :
+    (Tickit.RBFlushX.reqCalls ⟨false, false⟩ {} (.setpen { fg := some ⟨1, none⟩, bold := some true })).flatten.length > 7 ∧
+    ((Tickit.RBFlushX.XScreen.fresh 2 4).interp
+      (Tickit.RBFlushX.reqCalls ⟨false, false⟩ {} (.setpen { fg := some ⟨1, none⟩, bold := some true })).flatten).attrs =
+      { fg := .idx 1, bold := true } := by decide +kernel
+
+open Tickit.RBFlushX in
+/-- **request_on_vt_is_grid_step**: one request of the flush that the simulation covers (`ReqOK`: a goto, a setpen
+    with a pen the driver can say, an erase outside reverse video, the print of a CHAR cell), read by the VT screen as
+    the bytes the xterm driver writes for it, does what the request does on the grid terminal of `flush_spec_screen`:
+    the two terminals stay in step (`Sim`: same glyphs, same write counts, each written VT cell in the rendition its
+    grid cell's pen asks for, VT rendition = `tt->pen`), the cursors agree once a goto has been seen (`Cur`). -/
+theorem request_on_vt_is_grid_step {caps : TermPen.Caps} {t0 t : GridTerm} {s0 s : XScreen} (h : Sim caps t0 s0 t s)
+    (moved : Bool) (hcur : moved = true → Cur t s) (r : Req) (hr : ReqOK caps moved t r) :
+    Sim caps t0 s0 (t.stepL s.lines r) (s.interp (reqCalls caps t.pen r).flatten) ∧
+    (movedAfter moved r = true → Cur (t.stepL s.lines r) (s.interp (reqCalls caps t.pen r).flatten)) :=
+  ⟨(req_sim h moved hcur r hr).1, (req_sim h moved hcur r hr).2.1⟩
+
+open Tickit.RBFlushX in
+/-- **C04_xterm_screen_partial**: `C04_xterm_screen` under two extra hypotheses - the requests of the flush are ones
+    the simulation covers (`RunOK`, evaluated along the grid terminal's run: gotos at non-negative positions, pens the
+    driver can say, erases outside reverse video, print requests of CHAR cells; TEXT and LINE runs are not covered yet)
+    and no erase cell asks for reverse video.  Then, through an output buffer of any size, every cell of the VT screen
+    (inside and outside the buffer's area) meets the obligation of the buffer's content: glyph, the rendition its own
+    pen asks for, written exactly once; untouched where the buffer skips.  The composition: `flush_stream_any_buffer`
+    (the bytes are the driver's writes in order), `reqs_sim` (the VT screen stays in step with the grid terminal),
+    `flush_spec_screen` (the grid terminal meets `cellOK`), `sim_xcellOK`. -/
+theorem C04_xterm_screen_partial (caps : TermPen.Caps) (n : Nat) (rb : RB) (s : XScreen) (cache : Pen)
+    (hwf : FlushWF rb) (hin : ∀ l c, s.lines ≤ l ∨ s.cols ≤ c → want rb l c = .keep)
+    (hl : 0 < s.lines) (hc : 0 < s.cols) (hg : s.ps = .ground) (he : PenEncodable caps cache)
+    (ha : s.attrs = expectAttrs caps cache)
+    (hrun : RunOK caps s.lines false (gridOf s cache) (flushToTerm rb).reqs)
+    (hrv : ∀ l c p, want rb l c = .glyph .blank p → Pen.getBool p.reverse = false) :
+    ∀ l c, xcellOK caps (want rb l c) (s.cells l c)
+      ((s.interp (xflush caps n cache (flushToTerm rb).reqs).stream).cells l c) = true := by
+  intro l c
+  rw [(flush_stream_any_buffer caps n cache rb).2]
+  have h0 := sim_init caps s cache hl hc hg ha he
+  have hs : Sim caps (gridOf s cache) s ((gridOf s cache).runL s.lines (flushToTerm rb).reqs)
+      (s.interp (reqsCalls caps cache (flushToTerm rb).reqs).flatten) :=
+    reqs_sim (flushToTerm rb).reqs (gridOf s cache) s false h0 (by intro h; cases h) hrun
+  obtain ⟨_, _, hcell⟩ := flush_spec_screen rb hwf (gridOf s cache) s.lines hin
+  exact sim_xcellOK hs l c _ rfl (hrv l c) (hcell l c)
+
+/-- U+00E9 in a CHAR cell at (0,1) and an erase run of three cells on line 1 of a 2×4 buffer. -/
+def simXRB : RB := eraseAt (charAt (RB.new 2 4 0 0) 0 1 0xe9) 1 0 3
+
+theorem simXRB_requests :
+    (flushToTerm simXRB).reqs =
+      [.goto 0 1, .setpen Pen.empty, .print [0xc3, 0xa9] 0 2, .goto 1 0, .setpen Pen.empty, .erasech 3 .maybe] := by
+  decide +kernel
+
+open Tickit.RBFlushX in
+/-- Non-vacuity: the hypotheses of `C04_xterm_screen_partial` hold of `simXRB` on a fresh 2×4 screen, and the VT screen
+    shows `é` at (0,1) after reading the bytes that came through a 3-byte output buffer. -/
+example : RunOK ⟨false, false⟩ (XScreen.fresh 2 4).lines false (gridOf (XScreen.fresh 2 4) {}) (flushToTerm simXRB).reqs := by
+  rw [simXRB_requests]
+  refine ⟨⟨by decide, by decide⟩, by unfold ReqOK PenEncodable; decide,
+    ⟨rfl, by decide +kernel, 0xe9, by decide, by decide +kernel, by decide, rfl, by decide⟩,
+    ⟨by decide, by decide⟩, by unfold ReqOK PenEncodable; decide,
+    ⟨rfl, by decide, by decide, by decide +kernel⟩, trivial⟩
+
+example :
+    (((Tickit.RBFlushX.XScreen.fresh 2 4).interp
+      (Tickit.RBFlushX.xflush ⟨false, false⟩ 3 {} (flushToTerm simXRB).reqs).stream).cells 0 1).glyph =
+      .chars [0xc3, 0xa9] := by decide +kernel
 
 /-! ### Pause and resume between two flushes ("for every prior terminal pen") -/
 
